@@ -1,9 +1,17 @@
 pub fn time_millis() -> i64 {
+    #[cfg(feature = "verif")]
+    if let Some(v) = crate::verif::clock_millis() {
+        return v;
+    }
     let time: chrono::DateTime<chrono::Utc> = chrono::Utc::now();
     time.timestamp_millis()
 }
 
 pub fn timestamp() -> i64 {
+    #[cfg(feature = "verif")]
+    if let Some(v) = crate::verif::clock_stamp() {
+        return v;
+    }
     let time: chrono::DateTime<chrono::Utc> = chrono::Utc::now();
     time.timestamp_micros()
 }
